@@ -91,11 +91,8 @@ def runSeqSetParse (args : List String) : String :=
 
 /-- What the model expects on the wire (oracle `c16wire`):
     `c16-wire-model <KIND> <uids> <hex text>`  ->  `<OK|BAD|NO|PANIC> <sequence numbers, ascending|->`.
-    FETCH answers once per selected item (duplicates kept), the other commands act on a set.
-    COPY / MOVE of a selection that contains a message twice fail with NO: the second insert of the
-    same message violates the destination's UNIQUE(remote id) constraint — behaviour of the database
-    layer observed on the wire (finding F1 of the C16 report), not part of the functions modelled in
-    Model/SeqSet.lean.  A failing SEARCH program is answered NO (handleOther), ErrNoSuchMessage from
+    FETCH, STORE, COPY, MOVE and UID EXPUNGE work on `snapshot.getMessagesInRange` (every message
+    once).  A failing SEARCH program is answered NO (handleOther), ErrNoSuchMessage from
     FETCH/STORE/COPY/MOVE and parse errors are answered BAD. -/
 def runC16WireModel (args : List String) : String :=
   open Resolve Gluon.SeqSet in
@@ -116,14 +113,10 @@ def runC16WireModel (args : List String) : String :=
           | .error .panic => "PANIC -"
           | .error _ => "NO -"
         else
-          match run uidMode s set with
+          match getMessagesInRange uidMode s set with
           | .error .panic => "PANIC -"
           | .error _ => "BAD -"
-          | .ok ms =>
-            let seqs := sortNats (ms.map (·.seq))
-            if kind == "FETCH" || kind == "UIDFETCH" then s!"OK {showNats seqs}"
-            else if (kind == "COPY" || kind == "UIDCOPY" || kind == "MOVE" || kind == "UIDMOVE") && seqs.eraseDups.length != seqs.length then "NO -"
-            else s!"OK {showNats seqs.eraseDups}"
+          | .ok ms => s!"OK {showNats (sortNats (ms.map (·.seq)))}"
     | _, _ => "bad-op"
   | _ => "bad-op"
 
